@@ -133,6 +133,36 @@ func c16Run(fs *Facts) {
 	} else {
 		fs.Tri("ceasesVigilOnce", Unknown, swampPath)
 	}
+	// deleteRefusesClosedInstance: DeleteTreasure returns an error when the instance's routines have been cancelled
+	// (closed / destroyed), and the gateway's Delete goes on with the instance that is mapped then
+	if sw != nil {
+		res, where := Unknown, swampPath
+		if dt := sw.Func("swamp", "DeleteTreasure"); dt != nil {
+			where = swampPath + ":" + itoa(sw.Line(dt))
+			res = No
+			ast.Inspect(dt, func(x ast.Node) bool {
+				if ifs, ok := x.(*ast.IfStmt); ok && strings.Contains(sw.Str(ifs.Cond), "goRoutineContext.Err()") {
+					if n := len(ifs.Body.List); n > 0 {
+						if _, isRet := ifs.Body.List[n-1].(*ast.ReturnStmt); isRet {
+							res = Yes
+						}
+					}
+				}
+				return true
+			})
+			if res == Yes {
+				if gw, err := Load("app/server/gateway/gateway.go"); err != nil {
+					res = Unknown
+				} else if del := gw.Func("Gateway", "Delete"); del == nil || !strings.Contains(gw.Str(del), "ErrorSwampIsClosed") || len(gw.CallsSuffix(del, ".SummonSwamp")) < 2 {
+					res = No
+					where = "app/server/gateway/gateway.go"
+				}
+			}
+		}
+		fs.Tri("deleteRefusesClosedInstance", res, where)
+	} else {
+		fs.Tri("deleteRefusesClosedInstance", Unknown, swampPath)
+	}
 	hy, err := Load(hydraPath)
 	if err != nil {
 		fs.Err("%v", err)
